@@ -373,7 +373,7 @@ func init() {
 			if tier == "thorough" {
 				return 900000
 			}
-			return 3000
+			return 6000
 		},
 		PerCaseTimeoutS: 120,
 		Run: func(seed uint64, idx int, tier string) *fw.Result {
@@ -461,7 +461,7 @@ func init() {
 			if tier == "thorough" {
 				return 400000
 			}
-			return 1600
+			return 3200
 		},
 		PerCaseTimeoutS: 120,
 		Run: func(seed uint64, idx int, tier string) *fw.Result {
@@ -523,7 +523,7 @@ func init() {
 				if r.chance(1, 3) {
 					spec.MaxPar = 2 + r.intn(3)
 				}
-				if r.chance(1, 3) {
+				if n <= 5 && r.chance(1, 4) {
 					spec.ChunkBytes = 30000 + r.intn(40000) // more than 64 KiB per attempt
 					spec.Chunks = 2 + r.intn(2)
 				}
@@ -564,7 +564,7 @@ func init() {
 			if tier == "thorough" {
 				return histCases(4) + 600000
 			}
-			return histCases(3) + 1500
+			return histCases(3) + 4000
 		},
 		PerCaseTimeoutS: 120,
 		Run: func(seed uint64, idx int, tier string) *fw.Result {
